@@ -289,7 +289,11 @@ def run(tier, seed):
         bad_shape = None
         with np.errstate(all="ignore"):
             for _ in range(batches):
-                X = np.array(mix.generate(rep, rng=grng), dtype=float)
+                try:
+                    X = np.array(mix.generate(rep, rng=grng), dtype=float)
+                except Exception as e:
+                    bad_shape = f"raised {e!r}"
+                    break
                 if X.shape != (d, rep):
                     bad_shape = X.shape
                     break
@@ -303,7 +307,7 @@ def run(tier, seed):
         sw.count("batches of <= 3" if small else "one large batch")
         problem = None
         if bad_shape is not None:
-            problem = f"generate({rep}) returned shape {bad_shape}, expected {(d, rep)}"
+            problem = f"generate({rep}) {'returned shape ' + str(bad_shape) if not isinstance(bad_shape, str) else bad_shape}, expected an array of shape {(d, rep)}"
         else:
             for i in range(k):
                 if w[i] == 0.0 and counts[i] > 0:
